@@ -233,7 +233,7 @@ func (s *Cipher) XORKeyStream(dst, src []byte) {
 	// If using a multi-block xorKeyStreamBlocks would overflow, use the generic
 	// one that does one block at a time.
 	const blocksPerBuf = bufSize / blockSize
-	if uint64(s.counter)+blocksPerBuf > 1<<32 {
+	if uint64(s.counter)+blocksPerBuf >= 1<<32 {
 		s.buf = [bufSize]byte{}
 		numBlocks := (len(src) + blockSize - 1) / blockSize
 		buf := s.buf[bufSize-numBlocks*blockSize:]
